@@ -23,6 +23,68 @@ def probe_f14(run, har):
                        "target `old` occurs nowhere in the manifest (only in .n2_db) but is accepted: %s" % r[:60], where)
 
 
+def flags_leg(run):
+    """-f, -C and builddir through the real binary (argument parsing is not modelled): the same project built plainly, from another
+    directory with -C, under another manifest name with -f, and with `builddir = out`: same commands, same outputs, the log where
+    it belongs; an unknown name is refused in each variant"""
+    import shutil, tempfile
+    n2, out_ = build_n2_binary()
+    if n2 is None:
+        run.tie("n2 build", out_[-1000:])
+        return
+    base = tempfile.mkdtemp(prefix="n2verif-c18-%d-" % os.getpid())
+    man = ("rule cat\n  command = echo $out >> ran.log; cat $in > $out\nbuild a: cat s1\nbuild b: cat a s2\nbuild c: cat s2\n"
+           "build d: cat c |@ v\nbuild v: cat s1\nbuild all: phony b d\ndefault b\n")
+    variants = {
+        "plain": dict(name="build.ninja", text=man, args=[], cwd=".", db=".n2_db"),
+        "dash-C": dict(name="build.ninja", text=man, args=["-C", "proj"], cwd="..", db=".n2_db"),
+        "dash-f": dict(name="alt.ninja", text=man, args=["-f", "alt.ninja"], cwd=".", db=".n2_db"),
+        "dash-f-spelled": dict(name="alt.ninja", text=man, args=["-f", "./x/../alt.ninja"], cwd=".", db=".n2_db"),
+        "builddir": dict(name="build.ninja", text="builddir = out/db\n" + man, args=[], cwd=".", db="out/db/.n2_db"),
+        "C-and-f": dict(name="alt.ninja", text=man, args=["-C", "proj", "-f", "alt.ninja"], cwd="..", db=".n2_db"),
+    }
+    results = {}
+    try:
+        for vn, v in variants.items():
+            root = os.path.join(base, vn)
+            d = os.path.join(root, "proj")
+            os.makedirs(d)
+            open(os.path.join(d, v["name"]), "w").write(v["text"])
+            for s_ in ("s1", "s2"):
+                open(os.path.join(d, s_), "w").write(s_ + "\n")
+            cwd = d if v["cwd"] == "." else root
+            seq = []
+            for targets in ([], ["all"], ["nosuch"], ["d"], []):
+                p_ = subprocess.run([n2] + v["args"] + targets, cwd=cwd, stdout=subprocess.PIPE, stderr=subprocess.STDOUT, stdin=subprocess.DEVNULL,
+                                    timeout=120, env=ENV)
+                ran = open(os.path.join(d, "ran.log")).read().split() if os.path.exists(os.path.join(d, "ran.log")) else []
+                last = p_.stdout.decode("utf-8", "replace").strip().split("\n")[-1]
+                seq.append((p_.returncode, sorted(ran), "unknown path" in last, "no work to do" in last))
+                if os.path.exists(os.path.join(d, "ran.log")):
+                    os.remove(os.path.join(d, "ran.log"))
+            outs = {f: open(os.path.join(d, f)).read() for f in "abcdv" if os.path.exists(os.path.join(d, f))}
+            dbs = sorted(os.path.relpath(os.path.join(r_, f), d) for r_, _, fs in os.walk(root) for f in fs if f == ".n2_db")
+            results[vn] = (seq, outs, dbs, v["db"])
+        ref = results["plain"]
+        want_seq = [(0, ["a", "b"], False, False), (0, ["c", "d", "v"], False, False), (1, [], True, False), (0, [], False, True), (0, [], False, True)]
+        if ref[0] != want_seq:
+            run.report_failure(None, "default / named target / unknown name / validation closure: got %r, expected %r" % (ref[0], want_seq), {"variant": "plain"})
+        for vn, (seq, outs, dbs, dbwant) in results.items():
+            where = {"variant": vn, "args": variants[vn]["args"], "sequence": repr(seq), "logs": dbs}
+            if seq != ref[0] or outs != ref[1]:
+                run.report_failure(None, "with %s the build behaves differently from the plain invocation: %r vs %r" % (" ".join(variants[vn]["args"]) or vn, seq, ref[0]), where)
+            if dbs != [dbwant]:
+                run.report_failure(None, "with %s the log is at %r, expected %r only" % (" ".join(variants[vn]["args"]) or vn, dbs, dbwant), where)
+        run.coverage["black_box_flags"] = sorted(results)
+    finally:
+        shutil.rmtree(base, ignore_errors=True)
+
+
+def probes(run, har):
+    probe_f14(run, har)
+    flags_leg(run)
+
+
 def main(tier, seed, replay=None):
     return sched_check(PROP, THEOREMS, tier, seed, [monitor_c18], extra_modules=["Model.All", "Proofs.SchedSpec", "Proofs.SchedInv", "Proofs.SchedLive", "Proofs.SchedRunThms"],
-                       replay=replay, scen_gen=gen_sched_or_regen, probes=probe_f14)
+                       replay=replay, scen_gen=gen_sched_or_regen, probes=probes)
